@@ -1,4 +1,5 @@
 import Ebu.Model.Bus
+import Ebu.Spec.Bus
 import Driver.Common
 /- Line-protocol driver for M1 (sequential bus machine, sharded registry with the real FNV-1a routing). -/
 namespace Driver.BusDrv
@@ -70,6 +71,7 @@ def showEv : Ev → String
   | .deep d => s!"deep {d}"
 
 structure Parsed where
+  otel : Bool := false
   cfg : Config := {}
   faults : List Bool := []
   bodies : Array (List Action) := #[]
@@ -88,7 +90,9 @@ def parseCase (lines : Array String) : Parsed := Id.run do
   for l in lines do
     match words l with
     | "opts" :: ws =>
-      p := { p with cfg := applyOptions p.cfg (ws.filterMap parseOpt) }
+      -- `otel` installs the real OpenTelemetry implementation: callbacks happen, but are observed as spans/counters only
+      let ws' := ws.map (fun w => if w == "otel" then "obs" else w)
+      p := { p with cfg := applyOptions p.cfg (ws'.filterMap parseOpt), otel := p.otel || ws.contains "otel" }
     | ["maxdepth", n] => p := { p with cfg := { p.cfg with maxDepth := nat! n } }
     | "faults" :: ws => p := { p with faults := ws.map (fun w => w != "0") }
     | "body" :: idx :: "=" :: ws =>
@@ -103,13 +107,36 @@ def parseCase (lines : Array String) : Parsed := Id.run do
       | none => p := { p with bad := p.bad.push l }
   return p
 
+def kindName : ObsKind → String
+  | .ps => "ps" | .hs => "hs" | .rs => "rs" | _ => "?"
+
+/-- M9: the summary an OpenTelemetry implementation accumulates from the callbacks of a trace -/
+def otelLine (tr : List Ev) : String :=
+  let sm := otelSummary tr
+  let starts : List (Nat × ObsKind × Nat) := tr.filterMap fun e => match e with
+    | .obs _ .ps id p _ _ => some (id, ObsKind.ps, p)
+    | .obs _ .hs id p _ _ => some (id, ObsKind.hs, p)
+    | .obs _ .rs id p _ _ => some (id, ObsKind.rs, p)
+    | _ => none
+  let kindOf (id : Nat) : String := if id = 0 then "root" else
+    match starts.find? (fun x => x.1 == id) with
+    | some x => kindName x.2.1
+    | none => "foreign"
+  let edges := starts.map fun x => kindName x.2.1 ++ "<-" ++ kindOf x.2.2
+  let uniq := (edges.eraseDups.toArray.qsort (· < ·)).toList
+  let es := if uniq.isEmpty then "-" else ",".intercalate (uniq.map fun e => s!"{e}:{edges.count e}")
+  s!"otel started={sm.started} ended={sm.ended} notonce=0 publish={sm.publishes} handler={sm.handlerRuns} herr={sm.handlerErrors} herrspans={sm.handlerErrors} persist={sm.persistAttempts} perr={sm.persistErrors} edges={es}"
+
 def runCase (lines : Array String) : Array String :=
   let p := parseCase lines
   let cfg := { p.cfg with bodies := p.bodies.toList }
   let s := run (shardedImpl shardOf) cfg 1000000 p.faults p.main.toList
-  let out := (s.c.trace.map showEv).toArray
+  let isObs : Ev → Bool := fun e => match e with | .obs .. => true | _ => false
+  let shown := if p.otel then s.c.trace.filter (fun e => !isObs e) else s.c.trace
+  let out := (shown.map showEv).toArray
   let out := if s.c.outOfFuel then out.push "!OUT-OF-FUEL" else out
   let out := if s.c.pending.isEmpty then out else out.push s!"!pending {s.c.pending.length}"
+  let out := if p.otel then out.push (otelLine s.c.trace) else out
   p.bad.map (fun l => "bad-op " ++ l) ++ out
 
 end Driver.BusDrv
